@@ -16,7 +16,7 @@ META = {
              "d 2-4, cycles 0-8, full and simplified; multi-round experiment circuits); distinct by structural hash; non-trivial = nesting depth >= 2"),
     "assumptions": ["for generated programs only the multiset clause is asserted (the statement promises order/schedule only for library circuits)"],
     "floors": {
-        "quick": {"distance_1_inputs": 2, "flatten_calls": 2500, "second_flatten_checks": 2500, "library_flatten_checks": 50, "library_unobserved_flatten_checks": 50, "simplified_zero_cycle_inputs": 8, "duration_read_before_first_listing": 15, "schedule_read_under_other_override": 10, "leaves_compared": 30000, "deep_flatten_depth": 1300},
+        "quick": {"distance_1_inputs": 2, "flatten_calls": 2500, "second_flatten_checks": 2500, "flatten_after_add_through_other_wrapper": 1200, "library_flatten_checks": 50, "library_unobserved_flatten_checks": 50, "simplified_zero_cycle_inputs": 8, "duration_read_before_first_listing": 15, "schedule_read_under_other_override": 10, "leaves_compared": 30000, "deep_flatten_depth": 1300},
         "thorough": {"flatten_calls": 30000, "second_flatten_checks": 30000, "library_flatten_checks": 150},
     },
 }
@@ -79,6 +79,24 @@ def check_program(prog: Dict[str, Any], acc: Acc, flags=None):
             t2 = snap.raw_times(ops2)
             if any(abs(a[0] - b[0]) > TOL or abs(a[1] - b[1]) > TOL for a, b in zip(times, t2)):
                 acc.finding("flatten/not-idempotent-times", "flattening a second time changes reported times", case, None)
+        # flatten -> nest a sub-circuit through ANOTHER wrapper of the same (in-place flattened) structure -> flatten the wrapper
+        # returned earlier: flattening is a statement about the circuit, not about which wrapper object was asked before
+        # (seeded change C11-r16: an "already flat" flag kept on the wrapper)
+        from qce_circuit.language.declarative_circuit import DeclarativeCircuit
+        from qce_circuit.structure.circuit_operations import Rx180, Ry90
+        if flat.circuit_structure is circuit.circuit_structure and len(ops) <= 220:
+            sub = DeclarativeCircuit()
+            sub.add(Rx180(0))
+            sub.add(Ry90(1))
+            donor, asked = (circuit, flat) if len(ops) % 2 == 0 else (flat, again)
+            if asked.circuit_structure is donor.circuit_structure and asked is not donor:
+                donor.add(sub)
+                late = asked.flatten()
+                acc.count("flatten_after_add_through_other_wrapper")
+                if late.composite_operations or any(snap.is_composite(o) for o in snap.walk_nodes(late.circuit_structure)):
+                    acc.finding("flatten/sub-circuit-left-after-late-add", "a sub-circuit nested through another wrapper of the same circuit remains after flatten()", case, None)
+                elif sorted(snap.op_sig(o) for o in late.operations) != sorted(after + [snap.op_sig(o) for o in sub.operations]):
+                    acc.finding("flatten/content-after-late-add", "flatten() after nesting one more sub-circuit does not list the former leaves plus the new ones", case, None)
     memo = memo_shadow.drain()
     if memo["discrepancy_count"]:
         acc.finding("stale-memo/monitor", "a time query answered from the process-wide memo differs from the memo-free evaluation", case, memo["discrepancies"][:3])
